@@ -23,6 +23,7 @@ def replaceAt(string: str, index: int, ch: str) -> str:
 
 def process_inlines(tokens: list[Token], state: StateCore) -> None:
     stack: list[dict[str, Any]] = []
+    inside_autolink = 0
 
     for i, token in enumerate(tokens):
         thisLevel = token.level
@@ -38,7 +39,14 @@ def process_inlines(tokens: list[Token], state: StateCore) -> None:
 
         stack = stack[: j + 1]
 
-        if token.type != "text":
+        # the text of an autolink is the URL itself: leave it alone,
+        # as the replacements rule does
+        if token.type == "link_open" and token.info == "auto":
+            inside_autolink += 1
+        elif token.type == "link_close" and token.info == "auto":
+            inside_autolink -= 1
+
+        if token.type != "text" or inside_autolink > 0:
             continue
 
         text = token.content
